@@ -29,8 +29,11 @@ def setup():
 
     p = fp.build("try_join_async_spawn", (2, 1))
     e2.run_family("warm", [fp.to_prog("warm", p, [[0]])], extra_header=fp.HEADER)
+    from . import e3a, fam_async
+
     for tier in ("quick",):
         e3t.build("profiles_%s" % tier, fam_threads.all_sets(tier))
+        e3a.build("profiles_%s" % tier, fam_async.all_sets(tier))
     print("setup ok")
     return 0
 
@@ -197,6 +200,7 @@ def c05(tier, rep):
     fr = e2.run_family("tryfail", progs, extra_header=fp.HEADER)
     judge_classes(rep, fr, "value")
     run_threads(rep, tier, "c05", "try macro under a thread schedule", keep=lambda w: not w.startswith("per-branch event") and "earlier step" not in w)
+    run_async(rep, tier, "c05", "try macro under a wake-up order", keep=lambda w: not w.startswith("per-branch event") and "earlier step" not in w)
     rep.set("profiles", len(profs))
     rep.set("rule", "%s x 6 try macros x {Result, Option} (async: Result); rows = EVERY subset of (branch, step) positions marked failing; oracle: result value = the lowest-numbered branch failing in the earliest failing step, payload unchanged (async kinds: any branch failing in that step), all-success rows = Some/Ok of the tuple; non-trivial program = trace non-empty and >= 2 distinct outcomes" % bound)
     sample_family(rep, progs, fr)
@@ -210,6 +214,7 @@ def c06(tier, rep):
     fr = e2.run_family("tryfail", progs, extra_header=fp.HEADER)
     judge_classes(rep, fr, "trace")
     run_threads(rep, tier, "c05", "try macro under a thread schedule", keep=lambda w: not w.startswith("result differs"))
+    run_async(rep, tier, "c05", "try macro under a wake-up order", keep=lambda w: not w.startswith("result differs"))
     rep.set("profiles", len(profs))
     rep.set("rule", "%s x 6 try macros x {Result, Option}; every step >= 1 of every branch carries a block capture, an error-side callback/operand and a non-closure operand with a visible evaluation; rows = EVERY subset of failing (branch, step) positions; oracle on the event trace: equal to the reference's (sequential kinds: full order; spawn kinds: per-branch projections + step monotonicity; async: per-branch prefix), i.e. nothing of a later step and no handler after a failing step, the failing step complete in sync/spawn kinds" % bound)
     sample_family(rep, progs, fr)
@@ -265,10 +270,58 @@ def c08(tier, rep):
 @check("C03", "model_checking")
 def c03(tier, rep):
     run_threads(rep, tier, "c03", "step barrier (threads)")
+    run_async(rep, tier, "c09", "step barrier (async)", keep=lambda w: "earlier step" in w or "event sequences" in w or w.startswith("result differs"))
     rep.set("rule", "depth profiles n<=3,d<=3 x 4 thread-spawning macros, plain / capture-rich / deferred-wrapper steps; EVERY order of visible operations; per execution: no event of step k+1 before the last event of step k (captures, operands, callbacks alike), each branch's per-step arguments equal the reference's (continues from its own value), result equal; non-trivial program = >= 2 distinct operation orders")
 
 
 @check("C18", "fault_enumeration")
 def c18(tier, rep):
     run_threads(rep, tier, "c18", "panic propagation (threads)")
+    run_async(rep, tier, "c18", "panic propagation (async)")
     rep.set("rule", "depth profiles x 4 thread-spawning macros x EVERY single panic position (x every failure subset for small try programs) x EVERY order of visible operations; per execution: the macro evaluation panics on the caller, no deadlock, no event of a later step")
+
+
+# -------------------------------------------------------------------------------------------------
+def run_async(rep, tier, setname, what, keep=None):
+    from . import e3a, fam_async
+
+    sets = fam_async.all_sets(tier)
+    exe, cviol = e3a.build("profiles_%s" % tier, sets)
+    bad = {q.id for q, _ in cviol}
+    progs = [p for p in sets[setname] if p.id not in bad]
+    res = e3a.run_set(exe, setname, progs)
+    rep.add("async_programs", res.programs)
+    rep.add("async_rows", res.rows)
+    rep.add("decision_sequences", res.executions)
+    rep.add("states", res.states)
+    rep.add("transitions", res.decisions)
+    rep.add("traces_validated_against_impl", res.executions)
+    rep.add("evaluations", res.executions)
+    rep.add("distinct_nontrivial", res.nontrivial)
+    rep.add("unpruned_crosscheck_programs", res.crosschecks)
+    rep.add("unpruned_crosscheck_executions", res.unpruned_executions)
+    rep.add("e3a_run_s", round(res.run_s, 1))
+    if res.capped:
+        rep.exhaustive = False
+        rep.notes.append("%d async programs hit the execution cap" % res.capped)
+    for q, rendered in cviol:
+        if q.id in {p.id for p in sets[setname]}:
+            rep.violate("%s | compile" % q.meta.get("dsl", q.id), "macro output does not compile (against the tokio shim) where the reference does: %s" % q.meta.get("dsl", q.id), {"rustc": rendered, "dsl": q.meta.get("dsl")})
+    for p, v, n in res.violations:
+        if keep is not None and not keep(v["what"]):
+            rep.add("violations_left_to_sibling_property", 1)
+            continue
+        rep.violate(
+            "%s | row %s" % (p.meta.get("dsl", p.id), v["row"]),
+            "%s: %s [%s; fault row %s, decisions %s; %d failing decision sequences]" % (what, v["what"], p.meta.get("dsl", p.id)[:300], v["row"], v["decisions"][:300], n),
+            {"program": p.id, "dsl": p.meta.get("dsl"), "reference": p.meta.get("ref"), "execution": v, "mac_body": p.mac, "ref_body": p.ref, "engine": "E3-A"},
+        )
+    for p in progs[:: max(1, len(progs) // 3)][:3]:
+        rep.sample({"dsl": p.meta.get("dsl"), "execution": res.results[p.id].get("sample"), "decision_sequences": res.results[p.id]["executions"]})
+    return res
+
+
+@check("C09", "model_checking")
+def c09(tier, rep):
+    run_async(rep, tier, "c09", "async macro")
+    rep.set("rule", "gated depth profiles x 6 async macros x gate placements {one per branch-step, two in branch 0, none in branch 0} + awaited handlers; explicit-state search over ALL decision sequences (poll root / poll woken task / release any pending point before or after it was polled / spurious poll), canonical-state pruning cross-checked against the unpruned exploration on the small programs; per state: progress invariant at every quiescent point; per execution: lazy construction, no hang, result and per-branch traces equal the reference; non-trivial program = >= 2 distinct logs")
